@@ -170,6 +170,11 @@ theorem ble_false {a b : Nat} (h : ¬ a ≤ b) : Nat.ble a b = false := by
   | false => rfl
   | true => exact absurd (Nat.le_of_ble_eq_true hb) h
 
+theorem blt_false {a b : Nat} (h : ¬ a < b) : Nat.blt a b = false := by
+  cases hb : Nat.blt a b with
+  | false => rfl
+  | true => exact absurd (Nat.blt_eq.mp hb) h
+
 theorem ble_true {a b : Nat} (h : a ≤ b) : Nat.ble a b = true := Nat.ble_eq_true_of_le h
 
 theorem two_pow_pos (k : Nat) : 0 < (2:Nat) ^ k := Nat.pos_of_ne_zero (by positivity)
@@ -449,9 +454,11 @@ theorem pack_lower (f : Fmt) (Q k : Nat) (hk : f.hidden ≤ k) :
 structure Fmt.Ok (f : Fmt) : Prop where
   small : f.M + f.bias ≤ 4000
   hid : f.hidden ≤ f.infBits
+  exp : f.M + 2 ^ f.E ≤ 3000
+  e1 : 1 ≤ f.E
 
-theorem b32_ok : b32.Ok := ⟨by decide, by decide⟩
-theorem b64_ok : b64.Ok := ⟨by decide, by decide⟩
+theorem b32_ok : b32.Ok := ⟨by decide, by decide, by decide, by decide⟩
+theorem b64_ok : b64.Ok := ⟨by decide, by decide, by decide, by decide⟩
 
 theorem qebOf_ge (f : Fmt) (n d : Nat) (hf : f.Ok) : 1 ≤ qebOf f n d + f.K - B := by
   have hB : B = 8192 := rfl
@@ -528,5 +535,312 @@ theorem rnd_mono (f : Fmt) (hf : f.Ok) (n1 d1 n2 d2 : Nat) (hd1 : 0 < d1) (hd2 :
     rw [hQe]
     apply pack_mono_k f _ _ _ _ hc1 hf.hid
     exact rheN_mono hdd1 (ddOf_pos _ _ hd2) (scaled_cross _ n1 d1 n2 d2 hd1 hd2 h)
+
+/-! ### Decoding is monotone in the bit pattern -/
+
+/-- the significand and exponent of a magnitude pattern, scaled by `2^K`: value = `wOf / 2^K` -/
+def wOf (f : Fmt) (a : Nat) : Nat :=
+  (if a / 2 ^ f.M = 0 then a % 2 ^ f.M else a % 2 ^ f.M + 2 ^ f.M) * 2 ^ (if a / 2 ^ f.M = 0 then 1 else a / 2 ^ f.M)
+
+theorem signBit_pos (f : Fmt) : 0 < f.signBit := two_pow_pos _
+
+theorem num_den_w (f : Fmt) (a : Nat) (ha : a < f.signBit) : num f a * 2 ^ f.K = wOf f a * den f a ∧ 0 < den f a := by
+  unfold num den wOf absBits Fmt.hidden
+  simp only [force_eq, Nat.mod_eq_of_lt ha, Nat.shiftRight_eq_div_pow, Nat.shiftLeft_eq, beq_iff_eq]
+  by_cases he : a / 2 ^ f.M = 0
+  · simp only [he, if_true]
+    by_cases hk : f.K ≤ 1
+    · simp only [ble_true hk, if_true]
+      refine ⟨?_, by omega⟩
+      have : (2:Nat) ^ 1 = 2 ^ (1 - f.K) * 2 ^ f.K := by rw [← Nat.pow_add, Nat.sub_add_cancel hk]
+      rw [this]; ring
+    · simp only [ble_false hk, Bool.false_eq_true, if_false]
+      refine ⟨?_, by simp⟩
+      have : (2:Nat) ^ f.K = 2 ^ 1 * 2 ^ (f.K - 1) := by rw [← Nat.pow_add]; congr 1; omega
+      rw [this]; ring
+  · simp only [he, if_false]
+    by_cases hk : f.K ≤ a / 2 ^ f.M
+    · simp only [ble_true hk, if_true]
+      refine ⟨?_, by omega⟩
+      have : (2:Nat) ^ (a / 2 ^ f.M) = 2 ^ (a / 2 ^ f.M - f.K) * 2 ^ f.K := by rw [← Nat.pow_add, Nat.sub_add_cancel hk]
+      rw [this]; ring
+    · simp only [ble_false hk, Bool.false_eq_true, if_false]
+      refine ⟨?_, by simp⟩
+      have : (2:Nat) ^ f.K = 2 ^ (a / 2 ^ f.M) * 2 ^ (f.K - a / 2 ^ f.M) := by rw [← Nat.pow_add]; congr 1; omega
+      rw [this]; ring
+
+theorem wOf_mono (f : Fmt) (a b : Nat) (h : a ≤ b) : wOf f a ≤ wOf f b := by
+  unfold wOf
+  have hH := two_pow_pos f.M
+  have hdiv : a / 2 ^ f.M ≤ b / 2 ^ f.M := Nat.div_le_div_right h
+  have ea := Nat.div_add_mod a (2 ^ f.M)
+  have eb := Nat.div_add_mod b (2 ^ f.M)
+  have ra := Nat.mod_lt a hH
+  have rb := Nat.mod_lt b hH
+  generalize a / 2 ^ f.M = ea' at *
+  generalize b / 2 ^ f.M = eb' at *
+  generalize a % 2 ^ f.M = fa at *
+  generalize b % 2 ^ f.M = fb at *
+  generalize (2:Nat) ^ f.M = H at *
+  rcases Nat.lt_or_ge ea' eb' with hlt | hge
+  · -- different exponent fields
+    have hb0 : ¬ eb' = 0 := by omega
+    simp only [hb0, if_false]
+    have hpow : ∀ k, k + 1 ≤ eb' → (2:Nat) ^ (k + 1) ≤ 2 ^ eb' := fun k hk => Nat.pow_le_pow_right (by omega) hk
+    by_cases ha0 : ea' = 0
+    · simp only [ha0, if_true]
+      have h2 := hpow 0 (by omega)
+      have : fa * 2 ^ 1 ≤ H * 2 ^ eb' := by
+        calc fa * 2 ^ 1 ≤ H * 2 ^ 1 := Nat.mul_le_mul_right _ (Nat.le_of_lt ra)
+          _ ≤ H * 2 ^ eb' := Nat.mul_le_mul_left _ (by simpa using h2)
+      calc fa * 2 ^ 1 ≤ H * 2 ^ eb' := this
+        _ ≤ (fb + H) * 2 ^ eb' := Nat.mul_le_mul_right _ (by omega)
+    · simp only [ha0, if_false]
+      have h2 := hpow ea' (by omega)
+      calc (fa + H) * 2 ^ ea' ≤ (2 * H) * 2 ^ ea' := Nat.mul_le_mul_right _ (by omega)
+        _ = H * 2 ^ (ea' + 1) := by rw [Nat.pow_succ]; ring
+        _ ≤ H * 2 ^ eb' := Nat.mul_le_mul_left _ h2
+        _ ≤ (fb + H) * 2 ^ eb' := Nat.mul_le_mul_right _ (by omega)
+  · have he : ea' = eb' := by omega
+    subst he
+    have hf : fa ≤ fb := by
+      have : H * ea' + fa ≤ H * ea' + fb := by omega
+      omega
+    by_cases ha0 : ea' = 0
+    · simp only [ha0, if_true]; exact Nat.mul_le_mul_right _ hf
+    · simp only [ha0, if_false]; exact Nat.mul_le_mul_right _ (by omega)
+
+/-- value order in cross-multiplied form -/
+def valLe (f : Fmt) (a b : Nat) : Prop := num f a * den f b ≤ num f b * den f a
+
+theorem valLe_of_le (f : Fmt) (a b : Nat) (hb : b < f.signBit) (h : a ≤ b) : valLe f a b := by
+  have ha : a < f.signBit := by omega
+  obtain ⟨e1, p1⟩ := num_den_w f a ha
+  obtain ⟨e2, p2⟩ := num_den_w f b hb
+  have hw := wOf_mono f a b h
+  unfold valLe
+  have hK := two_pow_pos f.K
+  apply Nat.le_of_mul_le_mul_right _ hK
+  calc num f a * den f b * 2 ^ f.K = (num f a * 2 ^ f.K) * den f b := by ring
+    _ = wOf f a * den f a * den f b := by rw [e1]
+    _ ≤ wOf f b * den f a * den f b := Nat.mul_le_mul_right _ (Nat.mul_le_mul_right _ hw)
+    _ = (wOf f b * den f b) * den f a := by ring
+    _ = (num f b * 2 ^ f.K) * den f a := by rw [e2]
+    _ = num f b * den f a * 2 ^ f.K := by ring
+
+/-! ### Sizes of decoded numerators and denominators -/
+
+theorem den_le (f : Fmt) (a : Nat) : den f a ≤ 2 ^ f.K ∧ 0 < den f a := by
+  unfold den
+  simp only [force_eq, Nat.shiftLeft_eq, Nat.one_mul]
+  generalize (if (absBits f a >>> f.M == 0) = true then 1 else absBits f a >>> f.M) = e'
+  by_cases hk : f.K ≤ e'
+  · simp only [ble_true hk, if_true]; exact ⟨two_pow_pos _, by omega⟩
+  · simp only [ble_false hk, Bool.false_eq_true, if_false]
+    exact ⟨Nat.pow_le_pow_right (by omega) (by omega), two_pow_pos _⟩
+
+theorem K_le (f : Fmt) (hf : f.Ok) : f.K ≤ 3000 := by
+  have h1 := hf.exp
+  have h2 := hf.e1
+  unfold Fmt.K Fmt.bias
+  have : (2:Nat) ^ (f.E - 1) ≤ 2 ^ f.E := Nat.pow_le_pow_right (by omega) (by omega)
+  have p1 := two_pow_pos (f.E - 1)
+  have p2 := two_pow_pos f.E
+  omega
+
+theorem wOf_lt (f : Fmt) (a : Nat) (ha : a < f.signBit) (hf : f.Ok) : wOf f a < 2 ^ 3001 := by
+  unfold wOf
+  have hH := two_pow_pos f.M
+  have hr := Nat.mod_lt a hH
+  have he : a / 2 ^ f.M < 2 ^ f.E := by
+    rw [Nat.div_lt_iff_lt_mul hH, ← Nat.pow_add, Nat.add_comm]; exact ha
+  have hexp := hf.exp
+  have h1 : (if a / 2 ^ f.M = 0 then a % 2 ^ f.M else a % 2 ^ f.M + 2 ^ f.M) < 2 ^ (f.M + 1) := by
+    rw [Nat.pow_succ]; split <;> omega
+  have h2 : (if a / 2 ^ f.M = 0 then 1 else a / 2 ^ f.M) ≤ 2 ^ f.E := by
+    split
+    · exact two_pow_pos _
+    · omega
+  calc _ < 2 ^ (f.M + 1) * 2 ^ (if a / 2 ^ f.M = 0 then 1 else a / 2 ^ f.M) :=
+        Nat.mul_lt_mul_of_pos_right h1 (two_pow_pos _)
+    _ ≤ 2 ^ (f.M + 1) * 2 ^ (2 ^ f.E) := Nat.mul_le_mul_left _ (Nat.pow_le_pow_right (by omega) h2)
+    _ = 2 ^ (f.M + 1 + 2 ^ f.E) := by rw [← Nat.pow_add]
+    _ ≤ 2 ^ 3001 := Nat.pow_le_pow_right (by omega) (by omega)
+
+theorem num_lt (f : Fmt) (a : Nat) (ha : a < f.signBit) (hf : f.Ok) : num f a < 2 ^ 3001 := by
+  obtain ⟨e, _⟩ := num_den_w f a ha
+  have hd := (den_le f a).1
+  have hw := wOf_lt f a ha hf
+  have hK := two_pow_pos f.K
+  have : num f a * 2 ^ f.K ≤ wOf f a * 2 ^ f.K := by rw [e]; exact Nat.mul_le_mul_left _ hd
+  have := Nat.le_of_mul_le_mul_right this hK
+  omega
+
+theorem den_lt (f : Fmt) (a : Nat) (hf : f.Ok) : den f a < 2 ^ 3001 := by
+  have h1 := (den_le f a).1
+  have h2 : (2:Nat) ^ f.K ≤ 2 ^ 3000 := Nat.pow_le_pow_right (by omega) (K_le f hf)
+  have : (2:Nat) ^ 3000 < 2 ^ 3001 := Nat.pow_lt_pow_right (by omega) (by omega)
+  omega
+
+theorem mul_lt_8000 {x y : Nat} (hx : x < 2 ^ 3001) (hy : y < 2 ^ 3001) : x * y < 2 ^ 8000 := by
+  have : x * y < 2 ^ 3001 * 2 ^ 3001 := Nat.mul_lt_mul'' hx hy
+  have e : (2:Nat) ^ 3001 * 2 ^ 3001 = 2 ^ 6002 := by rw [← Nat.pow_add]
+  have : (2:Nat) ^ 6002 ≤ 2 ^ 8000 := Nat.pow_le_pow_right (by omega) (by omega)
+  omega
+
+/-! ### Operations on non-negative finite floats -/
+
+/-- a non-negative finite pattern -/
+def FinPos (f : Fmt) (a : Nat) : Prop := a < f.infBits
+
+theorem infBits_lt_signBit (f : Fmt) (hf : f.Ok) : f.infBits < f.signBit := by
+  unfold Fmt.infBits Fmt.signBit
+  have h1 := hf.e1
+  have hp := two_pow_pos f.E
+  have hm := two_pow_pos f.M
+  calc (2 ^ f.E - 1) * 2 ^ f.M < 2 ^ f.E * 2 ^ f.M := Nat.mul_lt_mul_of_pos_right (by omega) hm
+    _ = 2 ^ (f.M + f.E) := by rw [← Nat.pow_add, Nat.add_comm]
+
+theorem finPos_flags (f : Fmt) (hf : f.Ok) (a : Nat) (ha : FinPos f a) :
+    isNaN f a = false ∧ isInf f a = false ∧ isNeg f a = false ∧ absBits f a = a := by
+  have hs := infBits_lt_signBit f hf
+  unfold FinPos at ha
+  have hab : absBits f a = a := by unfold absBits; exact Nat.mod_eq_of_lt (by omega)
+  refine ⟨?_, ?_, ?_, hab⟩
+  · unfold isNaN; rw [hab]; exact blt_false (by omega)
+  · unfold isInf; rw [hab]; simp only [beq_eq_false_iff_ne]; omega
+  · unfold isNeg; exact ble_false (by omega)
+
+/-- multiplication of non-negative finite floats is one rounding of the exact product -/
+theorem mul_finPos (f : Fmt) (hf : f.Ok) (a c : Nat) (ha : FinPos f a) (hc : FinPos f c) :
+    mul f a c = rnd f (num f a * num f c) (den f a * den f c) := by
+  obtain ⟨a1, a2, a3, _⟩ := finPos_flags f hf a ha
+  obtain ⟨c1, c2, c3, _⟩ := finPos_flags f hf c hc
+  unfold mul
+  simp only [force_eq, a1, a2, a3, c1, c2, c3, Bool.or_self, Bool.false_eq_true, if_false, bne_self_eq_false, withSign]
+
+/-- **multiplication by a non-negative constant is monotone** on non-negative finite floats -/
+theorem mul_mono (f : Fmt) (hf : f.Ok) (a a' c : Nat) (ha' : FinPos f a') (hc : FinPos f c) (h : a ≤ a') :
+    mul f a c ≤ mul f a' c := by
+  have ha : FinPos f a := by unfold FinPos at *; omega
+  have hs := infBits_lt_signBit f hf
+  unfold FinPos at ha ha' hc
+  rw [mul_finPos f hf a c ha hc, mul_finPos f hf a' c ha' hc]
+  have hv := valLe_of_le f a a' (by omega) h
+  unfold valLe at hv
+  have d1 := (den_le f a).2
+  have d2 := (den_le f a').2
+  have d3 := (den_le f c).2
+  apply rnd_mono f hf _ _ _ _ (Nat.mul_pos d1 d3) (Nat.mul_pos d2 d3)
+    (mul_lt_8000 (num_lt f a (by omega) hf) (num_lt f c (by omega) hf))
+    (mul_lt_8000 (den_lt f a hf) (den_lt f c hf))
+    (mul_lt_8000 (num_lt f a' (by omega) hf) (num_lt f c (by omega) hf))
+    (mul_lt_8000 (den_lt f a' hf) (den_lt f c hf))
+  calc num f a * num f c * (den f a' * den f c) = (num f a * den f a') * (num f c * den f c) := by ring
+    _ ≤ (num f a' * den f a) * (num f c * den f c) := Nat.mul_le_mul_right _ hv
+    _ = num f a' * num f c * (den f a * den f c) := by ring
+
+/-- addition of non-negative finite floats is one rounding of the exact sum -/
+theorem add_finPos (f : Fmt) (hf : f.Ok) (a c : Nat) (ha : FinPos f a) (hc : FinPos f c) :
+    add f a c = rnd f (num f a * den f c + num f c * den f a) (den f a * den f c) := by
+  obtain ⟨a1, a2, a3, _⟩ := finPos_flags f hf a ha
+  obtain ⟨c1, c2, c3, _⟩ := finPos_flags f hf c hc
+  unfold add
+  simp only [force_eq, a1, a2, a3, c1, c2, c3, Bool.or_self, Bool.false_eq_true, if_false, beq_self_eq_true, if_true, withSign]
+
+/-- **adding a non-negative constant is monotone** on non-negative finite floats -/
+theorem add_mono (f : Fmt) (hf : f.Ok) (a a' c : Nat) (ha' : FinPos f a') (hc : FinPos f c) (h : a ≤ a') :
+    add f a c ≤ add f a' c := by
+  have ha : FinPos f a := by unfold FinPos at *; omega
+  have hs := infBits_lt_signBit f hf
+  unfold FinPos at ha ha' hc
+  rw [add_finPos f hf a c ha hc, add_finPos f hf a' c ha' hc]
+  have hv := valLe_of_le f a a' (by omega) h
+  unfold valLe at hv
+  have d1 := (den_le f a).2
+  have d2 := (den_le f a').2
+  have d3 := (den_le f c).2
+  have n1 := num_lt f a (by omega) hf
+  have n2 := num_lt f a' (by omega) hf
+  have n3 := num_lt f c (by omega) hf
+  have sum_lt : ∀ x y z w : Nat, x < 2 ^ 3001 → y < 2 ^ 3001 → z < 2 ^ 3001 → w < 2 ^ 3001 → x * y + z * w < 2 ^ 8000 := by
+    intro x y z w hx hy hz hw
+    have h1 : x * y < 2 ^ 3001 * 2 ^ 3001 := Nat.mul_lt_mul'' hx hy
+    have h2 : z * w < 2 ^ 3001 * 2 ^ 3001 := Nat.mul_lt_mul'' hz hw
+    have e : (2:Nat) ^ 3001 * 2 ^ 3001 = 2 ^ 6002 := by rw [← Nat.pow_add]
+    have e2 : (2:Nat) ^ 6002 + 2 ^ 6002 = 2 ^ 6003 := by rw [Nat.pow_succ]; omega
+    have : (2:Nat) ^ 6003 ≤ 2 ^ 8000 := Nat.pow_le_pow_right (by omega) (by omega)
+    omega
+  apply rnd_mono f hf _ _ _ _ (Nat.mul_pos d1 d3) (Nat.mul_pos d2 d3)
+    (sum_lt _ _ _ _ n1 (den_lt f c hf) n3 (den_lt f a hf))
+    (mul_lt_8000 (den_lt f a hf) (den_lt f c hf))
+    (sum_lt _ _ _ _ n2 (den_lt f c hf) n3 (den_lt f a' hf))
+    (mul_lt_8000 (den_lt f a' hf) (den_lt f c hf))
+  calc (num f a * den f c + num f c * den f a) * (den f a' * den f c)
+      = (num f a * den f a') * (den f c * den f c) + num f c * den f a * den f a' * den f c := by ring
+    _ ≤ (num f a' * den f a) * (den f c * den f c) + num f c * den f a * den f a' * den f c :=
+        Nat.add_le_add_right (Nat.mul_le_mul_right _ hv) _
+    _ = (num f a' * den f c + num f c * den f a') * (den f a * den f c) := by ring
+
+/-- **truncation is monotone** -/
+theorem trunc_mono (f : Fmt) (hf : f.Ok) (a a' : Nat) (ha' : FinPos f a') (h : a ≤ a') :
+    truncNat f a ≤ truncNat f a' := by
+  have hs := infBits_lt_signBit f hf
+  unfold FinPos at ha'
+  unfold truncNat
+  simp only [force_eq]
+  exact div_le_div_of_cross (den_le f a).2 (den_le f a').2 (valLe_of_le f a a' (by omega) h)
+
+theorem wOf_pos (f : Fmt) (a : Nat) (h : 0 < a) : 0 < wOf f a := by
+  unfold wOf
+  have hH := two_pow_pos f.M
+  apply Nat.mul_pos _ (two_pow_pos _)
+  by_cases he : a / 2 ^ f.M = 0
+  · simp only [he, if_true]
+    have := (Nat.div_eq_zero_iff_lt hH).mp he
+    rw [Nat.mod_eq_of_lt this]; exact h
+  · simp only [he, if_false]; omega
+
+theorem num_pos (f : Fmt) (a : Nat) (h0 : 0 < a) (ha : a < f.signBit) : 0 < num f a := by
+  obtain ⟨e, hd⟩ := num_den_w f a ha
+  have hw := wOf_pos f a h0
+  have : 0 < num f a * 2 ^ f.K := by rw [e]; exact Nat.mul_pos hw hd
+  exact Nat.pos_of_mul_pos_right this
+
+/-- division of non-negative finite floats by a positive finite float is one rounding of the exact quotient -/
+theorem div_finPos (f : Fmt) (hf : f.Ok) (a c : Nat) (ha : FinPos f a) (hc : FinPos f c) (hc0 : 0 < c) :
+    div f a c = rnd f (num f a * den f c) (den f a * num f c) := by
+  obtain ⟨a1, a2, a3, _⟩ := finPos_flags f hf a ha
+  obtain ⟨c1, c2, c3, c4⟩ := finPos_flags f hf c hc
+  have cz : isZero f c = false := by unfold isZero; rw [c4]; simp only [beq_eq_false_iff_ne]; omega
+  unfold div
+  simp only [force_eq, a1, a2, a3, c1, c2, c3, cz, Bool.or_self, Bool.false_eq_true, if_false, bne_self_eq_false, withSign]
+
+/-- **division by a positive constant is monotone** on non-negative finite floats -/
+theorem div_mono (f : Fmt) (hf : f.Ok) (a a' c : Nat) (ha' : FinPos f a') (hc : FinPos f c) (hc0 : 0 < c) (h : a ≤ a') :
+    div f a c ≤ div f a' c := by
+  have ha : FinPos f a := by unfold FinPos at *; omega
+  have hs := infBits_lt_signBit f hf
+  unfold FinPos at ha ha' hc
+  rw [div_finPos f hf a c ha hc hc0, div_finPos f hf a' c ha' hc hc0]
+  have hv := valLe_of_le f a a' (by omega) h
+  unfold valLe at hv
+  have d1 := (den_le f a).2
+  have d2 := (den_le f a').2
+  have d3 := num_pos f c hc0 (by omega)
+  apply rnd_mono f hf _ _ _ _ (Nat.mul_pos d1 d3) (Nat.mul_pos d2 d3)
+    (mul_lt_8000 (num_lt f a (by omega) hf) (den_lt f c hf))
+    (mul_lt_8000 (den_lt f a hf) (num_lt f c (by omega) hf))
+    (mul_lt_8000 (num_lt f a' (by omega) hf) (den_lt f c hf))
+    (mul_lt_8000 (den_lt f a' hf) (num_lt f c (by omega) hf))
+  calc num f a * den f c * (den f a' * num f c) = (num f a * den f a') * (den f c * num f c) := by ring
+    _ ≤ (num f a' * den f a) * (den f c * num f c) := Nat.mul_le_mul_right _ hv
+    _ = num f a' * den f c * (den f a * num f c) := by ring
+
+/-- conversion of naturals is monotone -/
+theorem ofNat_mono (f : Fmt) (hf : f.Ok) (m n : Nat) (hn : n < 2 ^ 8000) (h : m ≤ n) : ofNat f m ≤ ofNat f n := by
+  unfold ofNat
+  have h1 : (1:Nat) < 2 ^ 8000 := Nat.one_lt_two_pow (by omega)
+  exact rnd_mono f hf m 1 n 1 (by omega) (by omega) (by omega) h1 hn h1 (by omega)
 
 end SF
